@@ -1,4 +1,5 @@
 import OdfModel.Entity
+import OdfModel.EntityEnc
 /-
   drv_entity — line protocol for the C13 model (OdfModel.Entity + the regenerated parse-site inventory).
 
@@ -9,6 +10,10 @@ import OdfModel.Entity
                                                         | err no-parser | ok clean | ok expanded
        the package has the XML members <file>*, all clean except <target>, whose DOCTYPE declares an entity
        (<decl> = 1) and/or names an external subset (<ext> = 1); parser behaviour = `Entity.observed`
+    readenc <ep> <target> <decl> <ext> <utf8> <n> <file>*n <k> <entry>*k
+                                                     -> err undecodable | (as `read`)
+       as `read`, the bytes of <target> being valid UTF-8 (<utf8> = 1) or not (<utf8> = 0: UTF-16 with a byte order
+       mark, an 8-bit encoding with a non-ASCII byte, ...): `Entity.readE` of OdfModel.EntityEnc
     sites                                            -> ok <number of library sites> <number of script sites>
 -/
 open OdfModel OdfModel.Entity
@@ -68,6 +73,17 @@ def handle (line : String) : String :=
       let p : Pkg := { files := files.map (fun f => (f, if f == target then bad else XmlMember.clean)), manifest := man }
       match read observed Prep.id ep p with
       | .error e => "err " ++ showErr e
+      | .ok os => if os.any (·.expanded) then "ok expanded" else "ok clean"
+    | _, _, _ => "err bad-arg"
+  | "readenc" :: ep :: target :: decl :: ext :: utf8 :: rest =>
+    match ep.toNat? >>= EP.ofCode, Wire.dec target, parsePkgArgs rest with
+    | some ep, some target, some (files, man) =>
+      let bad : XmlMember := ⟨decl == "1", ext == "1"⟩
+      let p : PkgE := { pkg := { files := files.map (fun f => (f, if f == target then bad else XmlMember.clean)), manifest := man },
+                        notUtf8 := if utf8 == "1" then [] else [target] }
+      match readE observed Prep.id ep p with
+      | .error .undecodable => "err undecodable"
+      | .error (.refused e) => "err " ++ showErr e
       | .ok os => if os.any (·.expanded) then "ok expanded" else "ok clean"
     | _, _, _ => "err bad-arg"
   | _ => "err bad-op"
